@@ -569,16 +569,16 @@ theorem scan_false (edges : Edges) (depth : Nat) : ∀ ns visited, (∀ v ∈ vi
   their generated unfolding equations can be used. -/
 
 open Lean in
-macro "qsort_sort%" xs:term:max* : term =>
+local macro "qsort_sort%" xs:term:max* : term =>
   pure (Syntax.mkApp (mkIdent (Name.mkStr (Name.mkStr (Name.mkStr (Name.mkNum (`_private.Init.Data.Array.QSort.Basic) 0) "Array") "qsort") "sort")) xs)
 open Lean in
-macro "qpart_loop%" xs:term:max* : term =>
+local macro "qpart_loop%" xs:term:max* : term =>
   pure (Syntax.mkApp (mkIdent (Name.mkStr (Name.mkStr (Name.mkStr (Name.mkNum (`_private.Init.Data.Array.QSort.Basic) 0) "Array") "qpartition") "loop")) xs)
 open Lean in
-macro "qsort_sort_eq%" : term =>
+local macro "qsort_sort_eq%" : term =>
   pure (mkIdent (Name.mkStr (Name.mkStr (Name.mkStr (Name.mkStr (Name.mkNum (`_private.Init.Data.Array.QSort.Basic) 0) "Array") "qsort") "sort") "eq_1"))
 open Lean in
-macro "qpart_loop_eq%" : term =>
+local macro "qpart_loop_eq%" : term =>
   pure (mkIdent (Name.mkStr (Name.mkStr (Name.mkStr (Name.mkStr (Name.mkNum (`_private.Init.Data.Array.QSort.Basic) 0) "Array") "qpartition") "loop") "eq_1"))
 
 theorem qpart_loop_perm {α} (lt : α → α → Bool) {n} (lo hi : Nat) (hhi : hi < n) (pivot : α) :
@@ -911,5 +911,82 @@ theorem ECl.init (fs : FS) (root : SrcInfo) (h0 : fs[0]? = some root) : ECl fs (
     subst hix
     exact Or.inl (List.mem_map.mpr ⟨y, hy, rfl⟩)
   · exact absurd hx List.not_mem_nil
+
+
+/-! ## Unfolding `resolveImports` -/
+
+theorem no_reachable (fs : FS) (root : SrcInfo) (h0 : fs[0]? = some root) (he : root.imports = []) :
+    ∀ t, ¬ Reachable fs t := by
+  intro t ht
+  induction ht with
+  | root hr hm =>
+    rw [h0] at hr; injection hr with hr; subst hr
+    rw [he] at hm; exact absurd hm List.not_mem_nil
+  | step _ _ ih => exact ih
+
+/-- An import chain from the root to an existing file `t` is a path in the package graph. -/
+theorem reachable_pkgPath (fs : FS) (root : SrcInfo) (h0 : fs[0]? = some root) :
+    ∀ t, Reachable fs t → ∀ it, fs[t]? = some it → PkgPath fs root.pkg it.pkg := by
+  intro t ht
+  induction ht with
+  | root hr hm =>
+    intro it hit
+    rw [h0] at hr; injection hr with hr; subst hr
+    exact PkgPath.single ⟨0, _, _, it, Or.inl rfl, h0, hm, hit, rfl, rfl⟩
+  | step ha hab ih =>
+    intro it hit
+    obtain ⟨ia, hia, hb⟩ := hab
+    exact (ih ia hia).snoc ⟨_, _, ia, it, Or.inr ha, hia, hb, hit, rfl, rfl⟩
+
+theorem resolve_root_none (fs : FS) (sep : Bool) (h0 : fs[0]? = none) : resolveImports fs sep = .err .notFound := by
+  unfold resolveImports; simp only [h0]
+
+theorem resolve_no_imports (fs : FS) (sep : Bool) (root) (h0 : fs[0]? = some root) (he : root.imports = []) :
+    resolveImports fs sep = .ok [0] := by
+  unfold resolveImports; simp only [h0, he, List.isEmpty_nil, if_true]
+
+theorem resolve_wl_error (fs : FS) (sep : Bool) (root e) (h0 : fs[0]? = some root) (he : root.imports ≠ [])
+    (hw : worklist fs (fs.foldl (fun n i => n + i.imports.length) 0 + root.imports.length + 1)
+      (root.imports.map (fun t => (root.pkg, t))) [] [] = .error e) :
+    resolveImports fs sep = .err e := by
+  have he' : root.imports.isEmpty = false := by
+    cases h : root.imports with
+    | nil => exact absurd h he
+    | cons _ _ => rfl
+  unfold resolveImports; simp only [h0, he', hw]; simp
+
+theorem resolve_sep_cycle (fs : FS) (root imported edges) (h0 : fs[0]? = some root) (he : root.imports ≠ [])
+    (hw : worklist fs (fs.foldl (fun n i => n + i.imports.length) 0 + root.imports.length + 1)
+      (root.imports.map (fun t => (root.pkg, t))) [] [] = .ok (imported, edges))
+    (hc : findCycle edges = some true) :
+    resolveImports fs true = .err .cycle := by
+  have he' : root.imports.isEmpty = false := by
+    cases h : root.imports with
+    | nil => exact absurd h he
+    | cons _ _ => rfl
+  unfold resolveImports; simp only [h0, he', hw, hc]; simp
+
+theorem resolve_sep_nocycle (fs : FS) (root imported edges) (h0 : fs[0]? = some root) (he : root.imports ≠ [])
+    (hw : worklist fs (fs.foldl (fun n i => n + i.imports.length) 0 + root.imports.length + 1)
+      (root.imports.map (fun t => (root.pkg, t))) [] [] = .ok (imported, edges))
+    (hc : findCycle edges = some false) :
+    resolveImports fs true =
+      if imported.any (fun i => (fs[i]?.bind (·.pkg)).isNone) then .err .noPkg else .ok (0 :: imported) := by
+  have he' : root.imports.isEmpty = false := by
+    cases h : root.imports with
+    | nil => exact absurd h he
+    | cons _ _ => rfl
+  unfold resolveImports; simp only [h0, he', hw, hc]; simp
+
+/-- A graph whose edges all increase some rank has no cycle (used for concrete examples). -/
+theorem no_cycle_of_rank (edges : Edges) (r : Option Nat → Nat) (h : ∀ e ∈ edges, r e.1 < r e.2) :
+    ¬ HasCycle edges := by
+  have hp : ∀ a b, Path edges a b → r a < r b := by
+    intro a b hab
+    induction hab with
+    | single e => exact h _ e
+    | cons e _ ih => exact Nat.lt_trans (h _ e) ih
+  rintro ⟨n, hn⟩
+  exact Nat.lt_irrefl _ (hp n n hn)
 
 end Bebop.Text
